@@ -16,5 +16,6 @@ INVARIANT SinkGood
 INVARIANT NoOrphan
 INVARIANT BufferSuffices
 INVARIANT ResultOK
+INVARIANT LineLaw
 INVARIANT Emit
 CHECK_DEADLOCK TRUE
